@@ -182,6 +182,21 @@ def searchFrom (seps : List Bytes) : Bytes → Nat → Option Nat
 def search (seps : List Bytes) (buf : Bytes) (start : Nat) : Option Nat :=
   if start ≤ buf.length then searchFrom seps (buf.drop start) start else none
 
+/-- `min(match.end() for the patterns that match)` over one compiled pattern per literal separator: the
+    separator that ENDS first wins (repair of F10; before it the list was one alternation, see `search`) -/
+def searchMin : List Bytes → Bytes → Nat → Option Nat
+  | [], _, _ => none
+  | sep :: rest, buf, start =>
+    match search [sep] buf start, searchMin rest buf start with
+    | some a, some b => some (min a b)
+    | some a, none => some a
+    | none, r => r
+
+/-- the search `readuntil` makes: `minEnd` = one pattern per separator, earliest end (separator lists);
+    otherwise one pattern, leftmost start, first alternative (a single separator or the caller's regex) -/
+def srch (minEnd : Bool) (seps : List Bytes) (buf : Bytes) (start : Nat) : Option Nat :=
+  if minEnd then searchMin seps buf start else search seps buf start
+
 /-- `start = 0 if seplen == 0 else max(buflen + 1 - seplen, 0)` -/
 def searchStart (buflen seplen : Nat) : Nat :=
   if seplen = 0 then 0 else buflen + 1 - seplen
@@ -197,7 +212,7 @@ deriving DecidableEq, Repr
 
 /-- the `while curbuf < len(recv_buf)` loop of `readuntil` over the not yet scanned items;
     `rbuf` is the local `buf` (`buflen = len(buf)` at the head of every iteration), `curbuf` items precede -/
-def scan (seps : List Bytes) (seplen : Nat) : Bytes → Nat → List Item → ScanOut
+def scan (me : Bool) (seps : List Bytes) (seplen : Nat) : Bytes → Nat → List Item → ScanOut
   | rbuf, cur, [] => .more rbuf cur
   | rbuf, cur, .exc e :: rest =>
     if !rbuf.isEmpty then .excPartial rbuf (.exc e :: rest)
@@ -208,16 +223,16 @@ def scan (seps : List Bytes) (seplen : Nat) : Bytes → Nat → List Item → Sc
     else .popType (List.replicate (cur - 1) (.data []) ++ .exc e :: rest)
   | rbuf, cur, .data b :: rest =>
     let buf' := rbuf ++ b
-    match search seps buf' (searchStart rbuf.length seplen) with
+    match srch me seps buf' (searchStart rbuf.length seplen) with
     | some idx =>
       let left := buf'.drop idx
       .found (buf'.take idx) (if left.isEmpty then rest else .data left :: rest) idx
-    | none => scan seps seplen buf' (cur + 1) rest
+    | none => scan me seps seplen buf' (cur + 1) rest
 
 /-- the `while True` loop of `readuntil` -/
-def untilLoop (seps : List Bytes) (seplen : Nat) : St → Bytes → Nat → Sched → Res × St × Sched
+def untilLoop (me : Bool) (seps : List Bytes) (seplen : Nat) : St → Bytes → Nat → Sched → Res × St × Sched
   | s, rbuf, cur, sched =>
-    match scan seps seplen rbuf cur (s.buf.drop cur) with
+    match scan me seps seplen rbuf cur (s.buf.drop cur) with
     | .found res nb idx =>
       let s1 := { s with buf := nb, bufLen := s.bufLen - idx }
       (.ok res, (maybeResume s1).1, sched)
@@ -231,32 +246,38 @@ def untilLoop (seps : List Bytes) (seplen : Nat) : St → Bytes → Nat → Sche
         (.incomplete rbuf', (maybeResume s1).1, sched)
       else match sched with
         | [] => (.blocked, s, [])
-        | g :: rest => untilLoop seps seplen (absorb s g) rbuf' cur' rest
+        | g :: rest => untilLoop me seps seplen (absorb s g) rbuf' cur' rest
 
 def maxLen : List Bytes → Nat
   | [] => 0
   | p :: ps => max p.length (maxLen ps)
 
-/-- `readuntil(separator)` for a list (any iterable) of literal separators: the pattern is the alternation of
-    the escaped literals in list order and `seplen = max(len(sep))`; an empty list raises ValueError. -/
+/-- `readuntil(separator)` for a list (any iterable) of literal separators: one escaped pattern per separator,
+    the match that ends first is taken, `seplen = max(len(sep))`; an empty list raises ValueError. -/
 def readuntil (seps : List Bytes) (s : St) (sched : Sched) : Res × St × Sched :=
   if seps.isEmpty then (.valueError, s, sched)
-  else untilLoop seps (maxLen seps) s [] 0 sched
+  else untilLoop true seps (maxLen seps) s [] 0 sched
+
+/-- the code before the repair of F10: the list was compiled into ONE alternation `sep1|sep2|...`, whose match
+    is the leftmost-starting one (kept for the machine-checked witness of the defect) -/
+def readuntilPreFix (seps : List Bytes) (s : St) (sched : Sched) : Res × St × Sched :=
+  if seps.isEmpty then (.valueError, s, sched)
+  else untilLoop false seps (maxLen seps) s [] 0 sched
 
 /-- `readuntil(separator)` for one `bytes`/`str` separator; the empty one raises ValueError. -/
 def readuntilOne (sep : Bytes) (s : St) (sched : Sched) : Res × St × Sched :=
   if sep.isEmpty then (.valueError, s, sched)
-  else untilLoop [sep] sep.length s [] 0 sched
+  else untilLoop false [sep] sep.length s [] 0 sched
 
 /-- `readuntil(re.compile(b'sep1|sep2|...'), max_separator_len)`: the caller states the window -/
 def readuntilPat (seps : List Bytes) (maxSepLen : Nat) (s : St) (sched : Sched) : Res × St × Sched :=
-  untilLoop seps maxSepLen s [] 0 sched
+  untilLoop false seps maxSepLen s [] 0 sched
 
 def newline : UInt8 := 10
 
 /-- `readline`: `readuntil(b'\n')`, the partial data of an IncompleteReadError is returned instead -/
 def readline (s : St) (sched : Sched) : Res × St × Sched :=
-  match untilLoop [[newline]] 1 s [] 0 sched with
+  match untilLoop false [[newline]] 1 s [] 0 sched with
   | (.incomplete part, s', r) => (.ok part, s', r)
   | x => x
 
